@@ -153,6 +153,10 @@ func mkFilter(name string) filter.Filter {
 		return filter.NSName(nsname.New("ns1", ""))
 	case "nsp2":
 		return filter.NSName(nsname.New("ns2", ""))
+	case "nnpa":
+		return filter.NSName(nsname.New("", "a"))
+	case "nnpb":
+		return filter.NSName(nsname.New("", "b"))
 	case "sel0":
 		return filter.LabelSelector(nil)
 	case "selall":
